@@ -19,19 +19,20 @@ VARIABLES tid, l,
           rep,        \* C01: replica = start tree + Apply(delivered created/deleted/moved events)
           pendp,      \* C02/C07: probes not yet reported
           facts,      \* C03: what the history did so far (from opb lines)
+          dfacts,     \* C03: what operations on a moved-OUT directory would be if it were still in the tree (deviation D7)
           win,        \* C03 contract: events of handler 1 since the last quiescent line
           winops,     \* C03 contract: operations begun since the last quiescent line
           pre,        \* tree at the last quiescent line
           s1, s2,     \* C11: event sequences of the unfiltered (1) and the filtered (2) handler
           rootdel,    \* C07: number of DirDeleted(root) callbacks
           viol
-vars == <<tid, l, cfg, rep, pendp, facts, win, winops, pre, s1, s2, rootdel, viol>>
+vars == <<tid, l, cfg, rep, pendp, facts, dfacts, win, winops, pre, s1, s2, rootdel, viol>>
 
 Tr == AllTraces[tid]
 ASSUME InitRegs
 
 NoCfg == [recursive |-> TRUE, full |-> FALSE, ty |-> "str", paced |-> TRUE, filter |-> << >>, contract |-> FALSE]
-Init == /\ tid \in 1..NTraces /\ l = 1 /\ cfg = NoCfg /\ rep = {} /\ pendp = {} /\ facts = {} /\ win = << >> /\ winops = << >>
+Init == /\ tid \in 1..NTraces /\ l = 1 /\ cfg = NoCfg /\ rep = {} /\ pendp = {} /\ facts = {} /\ dfacts = {} /\ win = << >> /\ winops = << >>
         /\ pre = {} /\ s1 = << >> /\ s2 = << >> /\ rootdel = 0 /\ viol = {}
 
 Line(k) == l <= Len(Tr) /\ Tr[l].e = k
@@ -113,11 +114,21 @@ OpFacts(o) ==
       [] o.k = "rename" -> {F("moved", p, q, k), F("dirmod", Parent(p), << >>, "dir"), F("dirmod", Parent(q), << >>, "dir"),
                             \* an unpaired half is reported as deleted / created (C08 decides about pairing)
                             F("deleted", p, << >>, k), F("created", q, << >>, k)}
+                           \cup (IF o.victim = "dir" THEN {F("dirmod", q, << >>, "dir")} ELSE {})   \* IN_ATTRIB on the replaced directory
                            \cup SubF2("submoved", p, q, o.sub) \cup SubF("subcreated", q, o.sub)
+                           \cup {F("dirmod", Parent(q \o o.sub[i].r), << >>, "dir") : i \in 1..Len(o.sub)}
       [] o.k = "moveout" -> {F("deleted", p, << >>, k), F("dirmod", Parent(p), << >>, "dir")} \cup SubF("deleted", p, o.sub)
       [] o.k = "movein" -> {F("created", q, << >>, k), F("dirmod", Parent(q), << >>, "dir")} \cup SubF("subcreated", q, o.sub)
+                           \cup (IF o.victim = "dir" THEN {F("dirmod", q, << >>, "dir")} ELSE {})
+                           \cup {F("dirmod", Parent(q \o o.sub[i].r), << >>, "dir") : i \in 1..Len(o.sub)}
       [] o.k = "rmroot" -> {F("deleted", << >>, << >>, "dir")} \cup SubF("deleted", << >>, o.sub)
       [] OTHER -> {}
+\* Deviation D7 (known finding): a directory moved out of the tree keeps its kernel watch, so operations on it
+\* out there are reported under its old in-tree name.  The harness records such an operation with `alias` = the
+\* path the entry would have if the directory had not left; DevFacts are the facts of that hypothetical operation.
+DevFacts(o) == IF o.k \in {"owrite", "ocreat", "omkdir", "ounlink", "ormdir"} /\ Len(o.alias) > 0
+               THEN OpFacts([o EXCEPT !.k = (CASE o.k = "owrite" -> "write" [] o.k = "ocreat" -> "creat" [] o.k = "omkdir" -> "mkdir"
+                                                  [] o.k = "ounlink" -> "unlink" [] OTHER -> "rmdir"), !.p = o.alias]) ELSE {}
 ProbeFacts(p) == {F("created", p, << >>, "file"), F("opened", p, << >>, "file"), F("closed", p, << >>, "file"), F("dirmod", Parent(p), << >>, "dir")}
 
 Justified(x, fs) ==
@@ -158,7 +169,7 @@ Contract(o) ==
       [] o.k = "moveout" -> [req |-> {IF cfg.full THEN MOut(Cls("moved", k), p) ELSE E(Cls("deleted", k), p, FALSE), DM(Parent(p))}, opt |-> {}]
       [] o.k = "movein" -> [req |-> {IF cfg.full THEN MIn(Cls("moved", k), q) ELSE E(Cls("created", k), q, FALSE), DM(Parent(q))}
                                     \cup (IF k = "dir" THEN SubCreated(q, o.sub) ELSE {}),
-                            opt |-> {}]
+                            opt |-> IF o.victim = "dir" THEN {DM(q)} ELSE {}]
       [] OTHER -> [req |-> {}, opt |-> {}]
 \* non-recursive watch: only what happens directly in the root is visible; a rename across the boundary is a move in / out
 Visible(x, o) == /\ ~x.syn
@@ -188,17 +199,18 @@ Keep(s) == SelectSeq(s, LAMBDA x : x.cls \in FilterSet)
 
 \* ---------------------------------------------------------------------------- lines
 Cfg == /\ Line("cfg") /\ Consume /\ cfg' = Tr[l]
-       /\ UNCHANGED <<rep, pendp, facts, win, winops, pre, s1, s2, rootdel, viol>>
+       /\ UNCHANGED <<rep, pendp, facts, dfacts, win, winops, pre, s1, s2, rootdel, viol>>
 
 OpBegin == /\ Line("opb") /\ Consume
            /\ facts' = facts \cup OpFacts(Tr[l].op)
+           /\ dfacts' = dfacts \cup DevFacts(Tr[l].op)
            /\ winops' = Append(winops, Tr[l].op)
            /\ UNCHANGED <<cfg, rep, pendp, win, pre, s1, s2, rootdel, viol>>
-OpEnd == /\ Line("op") /\ Consume /\ UNCHANGED <<cfg, rep, pendp, facts, win, winops, pre, s1, s2, rootdel, viol>>
+OpEnd == /\ Line("op") /\ Consume /\ UNCHANGED <<cfg, rep, pendp, facts, dfacts, win, winops, pre, s1, s2, rootdel, viol>>
 
 Probe == /\ Line("probe") /\ Consume
          /\ pendp' = pendp \cup {Tr[l].path}
-         /\ facts' = facts \cup ProbeFacts(Tr[l].path)
+         /\ facts' = facts \cup ProbeFacts(Tr[l].path) /\ UNCHANGED dfacts
          /\ winops' = Append(winops, [k |-> "probe"])
          /\ UNCHANGED <<cfg, rep, win, pre, s1, s2, rootdel, viol>>
 
@@ -212,13 +224,14 @@ Cb == /\ Line("cb") /\ Consume
          /\ rootdel' = IF h = 1 /\ x.cls = "DirDeletedEvent" /\ x.src = << >> THEN rootdel + 1 ELSE rootdel
          /\ viol' = viol
               \* C03 soundness: explained by an operation that had begun before the callback
-              \cup (IF Justified(x, facts) THEN {} ELSE {"P_C03_Sound"})
+              \cup (IF Justified(x, facts) THEN {}
+                    ELSE IF Justified(x, facts \cup dfacts) THEN {"P_C03_SoundDevMovedOutKeepsWatch"} ELSE {"P_C03_Sound"})
               \* C02: a non-recursive watch never reports anything below the root's direct children
               \cup (IF ~cfg.recursive /\ ((x.hs /\ Len(x.src) > 1) \/ (x.hd /\ Len(x.dst) > 1)) THEN {"P_C02_NonRecursiveSilentBelow"} ELSE {})
               \* C19: path type preserved, every component is an exact name of the tree
               \cup (IF (x.hs /\ Tr[l].ty # cfg.ty) \/ (x.hd /\ Tr[l].ty2 # cfg.ty) THEN {"P_C19_TypePreserved"} ELSE {})
               \cup (IF "?" \in SetOfSeq(x.src) \/ "?" \in SetOfSeq(x.dst) THEN {"P_C19_ExactName"} ELSE {})
-      /\ UNCHANGED <<cfg, facts, winops, pre>>
+      /\ UNCHANGED <<cfg, facts, dfacts, winops, pre>>
 
 Quiescent ==
     /\ Line("quiescent") /\ Consume
@@ -232,9 +245,11 @@ Quiescent ==
             \cup (IF \E p \in pendp : (cfg.recursive \/ Len(p) = 1) THEN
                      {IF cfg.paced THEN "P_C02_ProbeReported" ELSE "P_C07_StillReporting"} ELSE {})
             \* C03: one operation at a time produces its full contract, nothing missing, nothing added
-            \cup (IF cfg.contract /\ Len(winops) = 1 /\ winops[1].k # "probe" THEN ContractClauses(winops[1], win) ELSE {})
+            \cup (IF cfg.contract /\ Len(winops) = 1
+                     /\ winops[1].k \in {"mkdir", "creat", "write", "read", "chmod", "unlink", "rmdir", "rename", "moveout", "movein"}
+                  THEN ContractClauses(winops[1], win) ELSE {})
     /\ pendp' = {} /\ win' = << >> /\ winops' = << >>
-    /\ UNCHANGED <<cfg, facts, s1, s2, rootdel>>
+    /\ UNCHANGED <<cfg, facts, dfacts, s1, s2, rootdel>>
 
 Final == /\ Line("final") /\ Consume
          /\ viol' = viol
@@ -246,11 +261,11 @@ Final == /\ Line("final") /\ Consume
               \cup (IF ~Tr[l].root_alive /\ TRUE \in SetOfSeq(Tr[l].emitters_alive) THEN {"P_C07_EmitterStopsWhenRootGone"} ELSE {})
               \cup (IF Tr[l].root_alive /\ FALSE \in SetOfSeq(Tr[l].emitters_alive) THEN {"P_C07_EmitterAlive"} ELSE {})
               \cup (IF Len(Tr[l].live) > 0 THEN {"P_C06_AllExited"} ELSE {})
-         /\ UNCHANGED <<cfg, rep, pendp, facts, win, winops, pre, s1, s2, rootdel>>
+         /\ UNCHANGED <<cfg, rep, pendp, facts, dfacts, win, winops, pre, s1, s2, rootdel>>
 Uncaught == /\ Line("uncaught") /\ Consume /\ viol' = viol \cup {"P_C07_NoUncaught"}
-            /\ UNCHANGED <<cfg, rep, pendp, facts, win, winops, pre, s1, s2, rootdel>>
+            /\ UNCHANGED <<cfg, rep, pendp, facts, dfacts, win, winops, pre, s1, s2, rootdel>>
 Deadlock == /\ Line("deadlock") /\ Consume /\ viol' = viol \cup {"P_C06_NoDeadlock"}
-            /\ UNCHANGED <<cfg, rep, pendp, facts, win, winops, pre, s1, s2, rootdel>>
+            /\ UNCHANGED <<cfg, rep, pendp, facts, dfacts, win, winops, pre, s1, s2, rootdel>>
 
 Next == TLCGet(BIG + tid) = 0 /\ (Cfg \/ OpBegin \/ OpEnd \/ Probe \/ Cb \/ Quiescent \/ Final \/ Uncaught \/ Deadlock)
 Spec == Init /\ [][Next]_vars
